@@ -250,7 +250,12 @@ func XOR(a, b SortedInts) SortedInts {
 //Complement returns a new SortedInts containing the elements in {0,..., n-1} but not a.
 //a is not modified.
 func Complement(n int, a SortedInts) SortedInts {
-	b := make([]int, 0, n-len(a))
+	//Only the elements of a in {0,..., n-1} are missing from the complement.
+	size := 0
+	if n > 0 {
+		size = n - (sort.SearchInts(a, n) - sort.SearchInts(a, 0))
+	}
+	b := make([]int, 0, size)
 	aIndex := 0
 	i := 0
 	for i < n && aIndex < len(a) {
